@@ -300,8 +300,20 @@ def run(case):
             fs1[i], fs2[i] = mine, theirs
             o = C(*fs1)
         o2 = C(*fs2)
-        a = attempt(lambda: o == o2)
         want = mode == "same"
+        if mode == "selections" and L >= 1:
+            # both tables are selections of ONE parent table: they begin at the same row and have as many rows, but walk the parent with another
+            # step (or the same one): equal exactly if the selected rows are equal
+            pf = [field(kd, i, 2 * L + 2) for i, kd in enumerate(kinds)]
+            if case["which"] % 2:
+                for f_ in pf:
+                    f_[...] = f_[:1]          # a parent whose rows are all alike: every selection of L rows equals every other
+            P = C(*pf)
+            st_ = 1 if case["cell"] % 3 == 0 else 2
+            o, o2 = P[0:L], P[0:st_ * L:st_]
+            want = all(np.array_equal(f_[0:L], f_[0:st_ * L:st_]) for f_ in pf)
+            tags.append("eq:selections-step%d" % st_)
+        a = attempt(lambda: o == o2)
         if not a.ok or bool(a.value) != want:
             return violated("%s == (copy with %s) gives %s, expected %s" % (desc0, mode, repr(a) if not a.ok else a.value, want), tags)
         return held(tags, nontrivial)
@@ -385,7 +397,7 @@ def gen_case(rng, tier, op=None, k=None, L=None):
     elif op == "concat":
         c["others"] = [rng.randint(0, 4) for _ in range(rng.randint(0, 3))]
     elif op == "eq":
-        c["mode"] = rng.choice(["same", "cell-differs", "length-differs", "shape-differs", "length-differs-same-size" if k == 1 and L > 1 else "shape-differs"]) if L > 0 else rng.choice(["same", "length-differs"])
+        c["mode"] = rng.choice(["same", "cell-differs", "length-differs", "shape-differs", "selections", "length-differs-same-size" if k == 1 and L > 1 else "shape-differs"]) if L > 0 else rng.choice(["same", "length-differs"])
         c.update(which=rng.randrange(k), cell=rng.randrange(100))
         if c["mode"] == "shape-differs":
             c.update(variant=rng.choice(["1d-vs-2d", "narrow-vs-wide", "nx1-vs-n"]), width=rng.randint(2, 4), swap=rng.random() < 0.5)
